@@ -1,5 +1,5 @@
 #!/usr/bin/env python3
-"""Regenerate section 10 of DESIGN.md from seeded/*/meta.json (+ seeded/MATRIX.json when present)."""
+"""Regenerate section 11 of DESIGN.md from seeded/*/meta.json (+ seeded/MATRIX.json when present)."""
 import json, os, re
 VERIF = os.path.dirname(os.path.dirname(os.path.abspath(__file__)))
 sd = os.path.join(VERIF, "seeded")
@@ -20,7 +20,7 @@ for name in sorted(os.listdir(sd)):
     if m.get("not_caught_because"):
         first = "no"
     rows.append(f"| {name} | {m.get('owning_check')} | {', '.join(m.get('files', []))[:60]} | {summ.replace('|', '/')} | {first} | {own if isinstance(own, str) else own} | {', '.join(others) or '-'} |")
-text = ["## 10. Seeded changes and which checks catch them", "",
+text = ["## 11. Seeded changes and which checks catch them", "",
         "Changes produced by independent sub-agents (each given only the text of one property and a scratch worktree of /repo; nothing",
         "from /verif). Every change kept here was confirmed by me with `tools/seedtest.py <dir> --verify`: the repository's tests pass with",
         "it, its demo fails with it and passes without it. `first version` says whether the owning check as first built caught it;",
@@ -32,6 +32,6 @@ notes = os.path.join(sd, "NOTES.md")
 if os.path.exists(notes):
     text += [open(notes).read()]
 design = open(os.path.join(VERIF, "DESIGN.md")).read()
-design = re.sub(r"\n## 10\. Seeded changes.*", "", design, flags=re.S).rstrip("\n") + "\n\n\n" + "\n".join(text)
+design = re.sub(r"\n## 11\. Seeded changes.*", "", design, flags=re.S).rstrip("\n") + "\n\n\n" + "\n".join(text)
 open(os.path.join(VERIF, "DESIGN.md"), "w").write(design)
 print(len(rows), "rows")
